@@ -84,8 +84,7 @@ def gen_tree(rnd, methods, maxdepth=4, mac=True):
                 if mac and rnd.random() < 0.12:
                     df = bytes(rnd.randrange(256) for _ in range(rnd.choice([0, 5, 300])))
                     rf = bytes(rnd.randrange(256) for _ in range(rnd.choice([0, 7, 130])))
-                    if not df and not rf:
-                        df = b'x'
+                    # both forks empty is legitimate too: an empty file archived in Mac mode is exactly one 128-byte envelope
                     e['mac'] = dict(data_fork=df, res_fork=rf, name_ok=rnd.random() < 0.8, len_ok=rnd.random() < 0.85)
                 out.append(e)
     fill(b'', 0)
